@@ -165,7 +165,12 @@ func mergeToWriter(segments []*SegmentBase, drops []*roaring.Bitmap,
 		// nothing precedes the fields section, and readers take a field
 		// record at offset 0 as "no such field": keep the first record of a
 		// non-trivial fields section off offset 0
-		if len(fieldsInv) > 1 {
+		pad := len(fieldsInv) > 1
+		for _, segment := range segments {
+			// "_id" alone is a field list too, unless no input has any field
+			pad = pad || len(segment.fieldsInv) > 0
+		}
+		if pad {
 			_, err = cr.Write([]byte{0})
 			if err != nil {
 				return nil, 0, 0, nil, nil, 0, err
